@@ -4,9 +4,12 @@
 mod __verif_kani {
     use super::*;
 
-    //@ kind=P props=C20 fn=dsv::simd::sse2::process_chunk_64 : for ALL 64-byte chunks, all pairwise-distinct (delimiter, quote, newline) bytes and both carries: (markers, newlines, carry') == 64 steps of the scalar parser::build_index loop body started with in_quote = carry
+    //@ kind=P props=C20 stubs=_mm_min_epu8,_mm_max_epu8,_mm_subs_epu8(unused_on_the_pinned_tree) fn=dsv::simd::sse2::process_chunk_64 : for ALL 64-byte chunks, all pairwise-distinct (delimiter, quote, newline) bytes and both carries: (markers, newlines, carry') == 64 steps of the scalar parser::build_index loop body started with in_quote = carry
     #[kani::proof]
     #[kani::unwind(66)]
+    #[kani::stub(core::arch::x86_64::_mm_min_epu8, crate::__verif_models::model_mm_min_epu8)]
+    #[kani::stub(core::arch::x86_64::_mm_max_epu8, crate::__verif_models::model_mm_max_epu8)]
+    #[kani::stub(core::arch::x86_64::_mm_subs_epu8, crate::__verif_models::model_mm_subs_epu8)]
     pub fn c20_sse2_chunk64_is_scalar() {
         let bytes: [u8; 64] = kani::any();
         let d: u8 = kani::any();
